@@ -259,6 +259,28 @@ func (r *rewriter) collectYieldFunc(pkg loader.Pkg, f *loader.File) {
 		r.assert(pkg, retIter, pos, msg)
 	}
 
+	// Yield / YieldFrom mean something only as the callee of a call statement: used as a
+	// value (y := Yield[int]; y(1)) they would keep calling the stub of package co
+	var valueUses []*ast.Ident // uses seen so far that are not the callee of a yield call
+	calleeIdent := func(fun ast.Expr) *ast.Ident {
+		for {
+			switch x := fun.(type) {
+			case *ast.ParenExpr:
+				fun = x.X
+			case *ast.IndexExpr:
+				fun = x.X
+			case *ast.IndexListExpr:
+				fun = x.X
+			case *ast.SelectorExpr:
+				return x.Sel
+			case *ast.Ident:
+				return x
+			default:
+				return nil
+			}
+		}
+	}
+
 	info := f.Pkg.TypesInfo
 	cache := map[ast.Node]bool{}
 	astutil.Apply(f.File, func(c *astutil.Cursor) bool {
@@ -282,9 +304,29 @@ func (r *rewriter) collectYieldFunc(pkg loader.Pkg, f *loader.File) {
 		case *ast.FuncDecl, *ast.FuncLit:
 			exit()
 
+		case *ast.Ident:
+			if obj := pkg.ObjectOf(n); obj != nil && (obj == r.yieldFunc || obj == r.yieldFromFunc) {
+				valueUses = append(valueUses, n)
+			}
+
+		case *ast.File:
+			// the whole file has been visited
+			for _, id := range valueUses {
+				r.assert(pkg, false, id, "yield not supported here: %s is not called", id.Name)
+			}
+
 		case *ast.CallExpr:
 			callee := typeutil.Callee(info, n)
 			if callee == r.yieldFunc || callee == r.yieldFromFunc {
+				// its callee is visited just before the call
+				if id := calleeIdent(n.Fun); id != nil {
+					for i, use := range valueUses {
+						if use == id {
+							valueUses = append(valueUses[:i], valueUses[i+1:]...)
+							break
+						}
+					}
+				}
 				switch f := outer().(type) {
 				case *ast.FuncDecl:
 					checkSignature(info.TypeOf(f.Name), n.Pos())
